@@ -84,6 +84,51 @@ def run(ctx, broken):
                     ctx.violation("impl:shared-field:" + names[i], {"kind": "implementation-vs-property",
                                   "why": "two proofs of the same witness under different randomness share %s" % names[i], "circuit": g})
                     break
+    # EVERY draw reaches the commitment it is prescribed for (both proving versions): change ONLY draw i and compare — draws 0,1
+    # own a_comm, 2,3 b_comm, 4,5 c_comm, 6,7 d_comm, 8,9,10 z_comm, 11 t_low+t_mid, 12 t_mid+t_high, 13 t_high+t_fourth
+    owners = {0: [0], 1: [0], 2: [1], 3: [1], 4: [2], 5: [2], 6: [3], 7: [3], 8: [4], 9: [4], 10: [4], 11: [5, 6], 12: [6, 7], 13: [7, 8]}
+    dd_lines, dd_meta = [], []
+    for ver in (3, 2):
+        src = progs[0]
+        based = [draw_hex(rng) for _ in range(14)]
+        dd_lines.append(prove_line(srs, 600, b"zk", based, ver, src)); dd_meta.append((ver, None))
+        for i in range(14):
+            d2 = list(based); d2[i] = draw_hex(rng)
+            dd_lines.append(prove_line(srs, 600, b"zk", d2, ver, src)); dd_meta.append((ver, i))
+    dd_out = ctx.impl(dd_lines)
+    dd_model = ctx.model(dd_lines)
+    base_fields = {}
+    n_dd = 0
+    for (ver, i), l, o, mo in zip(dd_meta, dd_lines, dd_out, dd_model):
+        d = parse_proof(o)
+        n_dd += 1
+        if "proof" not in d:
+            if not o.startswith("err:UnsupportedProvingVersion"):
+                ctx.violation("impl:draw-dependence-no-proof", {"kind": "implementation-vs-property", "why": "a satisfied circuit did not prove",
+                                                                 "request": l[:400], "impl_output": o[:200]})
+            continue
+        if o.split(" calls=")[0] != mo.replace(" spec=ok", "").split(" calls=")[0] and "proof=" in mo:
+            ctx.violation("correspondence:version-%d-stream" % ver, {"kind": "model-vs-implementation", "why": "proof bytes differ from the "
+                          "specification prover's (version %d)" % ver, "request": l[:400], "impl_output": o[:200], "model_output": mo[:200]}, no_input=True)
+        f = proof_fields(d["proof"])
+        if i is None:
+            base_fields[ver] = f
+            continue
+        bf = base_fields.get(ver)
+        if bf is None:
+            continue
+        for k in owners[i]:
+            if f[k] == bf[k]:
+                ctx.violation("impl:draw-%d-does-not-reach-%s" % (i, names[k]), {"kind": "implementation-vs-property",
+                              "why": "changing only masking draw %d (version %d) leaves %s unchanged: the scalar was drawn but "
+                              "does not mask what it is prescribed for" % (i, ver, names[k]), "request": l[:400]})
+                break
+        for k in range(0, min(owners[i])):
+            if f[k] != bf[k]:
+                ctx.violation("impl:draw-%d-changes-earlier-%s" % (i, names[k]), {"kind": "implementation-vs-property",
+                              "why": "changing only masking draw %d (version %d) changes the EARLIER commitment %s" % (i, ver, names[k]),
+                              "request": l[:400]})
+                break
     # a FAILING caller RNG (try_fill_bytes returns an error / fill_bytes panics after k draws): every masking scalar must come
     # from the caller's RNG, so no proof may be returned unless all 14 draws were delivered (a panic or an error is fine)
     fail_lines, fail_meta = [], []
@@ -111,11 +156,12 @@ def run(ctx, broken):
                           "impl_output": o[:300], "unlimited": (plain.get(pl) or "")[:300]})
             break
     st = r.report()
-    st["evaluations"] += nfail
+    st["evaluations"] += nfail + n_dd
+    st["draw_dependence_cases"] = n_dd
     st["failing_rng_cases"] = nfail
     st["proof_pairs_compared_for_shared_fields"] = len(by)
     st["rule"] = ("%d circuits x scripted RNG streams: fully random, each single draw (a1,a2,b1..d2,z1..z3,t1..t3) forced to 0 / 1 / r-1, "
                   "and a second independent stream. Real prover output (1008 bytes) == Lean specification prover output, whose openings "
                   "are 'unmasked value + prescribed mask' by construction (theorems); fill_bytes call count must be 14; the two "
-                  "independently randomised proofs of one witness must share none of the 26 proof fields; a caller RNG that FAILS after k = 0..13 draws must never yield a proof, one that delivers 14 or 15 must give the unlimited proof." % len(progs))
+                  "independently randomised proofs of one witness must share none of the 26 proof fields; changing only draw i (V3 and V2) must change the commitment it masks and none before it; a caller RNG that FAILS after k = 0..13 draws must never yield a proof, one that delivers 14 or 15 must give the unlimited proof." % len(progs))
     return st
